@@ -128,6 +128,8 @@ type gctx struct {
 	inline   bool // inline nested objects / oneofs / enums, optional and required marks
 }
 
+var keywordNames = []string{"option", "optional", "repeated", "message", "enum", "oneof", "string", "bool", "int32", "bytes", "stream", "map", "service"}
+
 var descPool = []string{"Plain words.", "With \"double quotes\" inside", "back\\slash and 'single'", "unicode é ü 漢字 😀", "slashes // and /* stars */", "colon: semi; brace { } [ ]",
 	"ends with backslash \\", "percent %s %d and tab-free", "a = b, c <d> &e", "x"}
 var patternPool = []string{`^[a-z]+$`, `^[a-z\"\\\\]+$`, `^é+$`, `^'x'$`, `a/b`, `^[0-9]{3}-[0-9]{4}$`, `^\\\\d+$`}
@@ -307,13 +309,23 @@ func genPackageOpt(r *vh.Rand, awkward, decorate bool) *gPackage {
 	g := &gctx{r: r, awkward: awkward, decorate: decorate, inline: r.Chance(50)}
 	p := &gPackage{Pkg: vh.Pick(r, pkgNames), Awkward: awkward}
 	// declare schema names first so that references can be cyclic
+	usedKeyword := map[string]bool{}
 	n := r.Range(2, 6)
 	for i := 0; i < n; i++ {
 		kind := vh.Pick(r, []string{"object", "object", "object", "oneof", "enum"})
 		if i == 0 {
 			kind = "object"
 		}
-		g.schemas = append(g.schemas, gSchema{Name: fmt.Sprintf("%s%d", map[string]string{"object": "Obj", "oneof": "Choice", "enum": "Kind"}[kind], i), Kind: kind})
+		name := fmt.Sprintf("%s%d", map[string]string{"object": "Obj", "oneof": "Choice", "enum": "Kind"}[kind], i)
+		// now and then a schema whose name is a word of the proto grammar or a scalar type name: as a field
+		// type it must not be printed as the first word of the declaration (fix 5e02f98)
+		if i > 0 && r.Chance(6) {
+			if kw := vh.Pick(r, keywordNames); !usedKeyword[kw] {
+				usedKeyword[kw] = true
+				name = kw
+			}
+		}
+		g.schemas = append(g.schemas, gSchema{Name: name, Kind: kind})
 	}
 	for i := range g.schemas {
 		s := &g.schemas[i]
